@@ -1,0 +1,55 @@
+// SPDX-FileCopyrightText: 2020 - 2025 SAP SE
+//
+// SPDX-License-Identifier: Apache-2.0
+
+//go:build verif
+
+package tds
+
+import "bytes"
+
+// This file is only compiled with the build tag "verif". It gives the
+// verification harness access to the unexported value masks of a
+// CapabilityPackage and to writeString. It adds code only.
+
+// VerifEmptyCapabilityPackage returns a CapabilityPackage without any
+// capability type.
+func VerifEmptyCapabilityPackage() *CapabilityPackage {
+	return &CapabilityPackage{Capabilities: map[CapabilityType]*valueMask{}}
+}
+
+// VerifSetMask stores a copy of bools as the value mask of typ.
+func (pkg *CapabilityPackage) VerifSetMask(typ byte, bools []bool) {
+	pkg.Capabilities[CapabilityType(typ)] = &valueMask{capabilities: append([]bool{}, bools...)}
+}
+
+// VerifMasks returns a copy of all value masks by capability type.
+func (pkg *CapabilityPackage) VerifMasks() map[byte][]bool {
+	ret := map[byte][]bool{}
+	for typ, vm := range pkg.Capabilities {
+		ret[byte(typ)] = append([]bool{}, vm.capabilities...)
+	}
+	return ret
+}
+
+// VerifParseValueMask exposes parseValueMask.
+func VerifParseValueMask(bs []byte) []bool {
+	return append([]bool{}, parseValueMask(bs).capabilities...)
+}
+
+// VerifValueMaskBytes exposes valueMask.Bytes.
+func VerifValueMaskBytes(bools []bool) []byte {
+	return valueMask{capabilities: append([]bool{}, bools...)}.Bytes()
+}
+
+// VerifValueMaskIsEmpty exposes valueMask.isEmpty.
+func VerifValueMaskIsEmpty(bools []bool) bool {
+	return (&valueMask{capabilities: append([]bool{}, bools...)}).isEmpty()
+}
+
+// VerifWriteString exposes writeString.
+func VerifWriteString(s string, padTo int) ([]byte, error) {
+	buf := &bytes.Buffer{}
+	err := writeString(buf, s, padTo)
+	return buf.Bytes(), err
+}
